@@ -32,8 +32,26 @@
    fuel; the machine side is a small-step execution sequence).  The built-in
    library (operators on values, built-in functions, argument binding) is used
    opaquely: the theorem holds for ANY behaviour of those primitives.
-   MISSING from the full statement: comprehensions (block-local slots),
-   closures / lambda (cells and free variables), load, and the literal folding
+   PROVED below as well (milestone 2): codegen_correct_partial2 -- the same
+   equation for every program of the LARGER fragment `in_fragment2 p = true`
+   (ProofsCompFrag.v; fragment2_contains_fragment): the fragment above plus list
+   and dict COMPREHENSIONS anywhere an expression may stand -- any number of
+   for / if clauses, every kind of target, nested in each other, inside
+   functions and at module level, their variables in block-local slots of the
+   enclosing frame exactly as Compile.v (bindLocal) assigns them (the layout
+   may interleave function-level names and comprehension slots).  The
+   predicate checks the slot annotations of the program against the frame
+   layout (one slot per variable, distinct, disjoint from the slots of
+   enclosing comprehensions and of function-level names) -- which holds for
+   the annotations number_prog computes, see example2_fold -- and carries THE
+   GUARD that excludes exactly the divergence codegen_correct_refuted: every
+   use of a comprehension variable is dominated by the for clause that binds
+   it (an expression of a clause, of a for-clause target, or the body may name
+   a variable of an enclosing comprehension only after a for clause binding it;
+   the stale-variable witness below reads z in the clause before `for z`).
+   MISSING from the full statement: comprehensions that read one of their
+   variables before the clause binding it (where the code as it is diverges
+   from the specification), closures / lambda (cells and free variables), load, and the literal folding
    of fcomp.plus / slot numbering (codegen_correct_partial is about
    compile_prog p; fold_prog and number_prog are the identity on programs
    without adjacent addable literals and comprehensions, see
@@ -42,6 +60,7 @@
    in fact FALSE for the code as it is: codegen_correct_refuted below. *)
 From Coq Require Import ZArith String List Bool.
 From SV Require Import C01.Syntax C01.Values C01.Ref C01.VM C01.Compile C01.Frag C01.Proofs C01.ProofsFuns.
+From SV Require Import C01.ProofsCompFrag C01.ProofsCompFuns C01.ProofsCompMain C01.ProofsCompSub.
 Import ListNotations.
 Open Scope string_scope.
 
@@ -161,3 +180,122 @@ Proof.
   apply codegen_correct_partial; [ exact example_in_fragment | | ];
     vm_compute; discriminate.
 Qed.
+
+(* ================================================================ milestone 2: comprehensions
+
+   codegen_correct_partial2: the statement of codegen_correct_partial for the larger fragment
+   in_fragment2 (ProofsCompFrag.v): everything of in_fragment plus list and dict comprehensions
+   (for / if clauses, nested, inside functions and at module level) whose variable uses are
+   dominated by their binding clause.  Proved by the same simulation, with the machine's locals
+   array related to -- no longer equal to -- the evaluator's environment (ProofsCompEnv.R):
+   a comprehension variable that is not bound yet says nothing about its slot, which may hold
+   the value of an earlier evaluation. *)
+Theorem codegen_correct_partial2 :
+  forall p : program,
+    in_fragment2 p = true ->
+    forall n m : nat,
+      ob_verdict (observe_ref (run_module p n)) <> OutOfFuel ->
+      ob_verdict (observe_vm (run_vm p m)) <> OutOfFuel ->
+      observe_vm (run_vm p m) = observe_ref (run_module p n).
+Proof.
+  intros p Hf. apply andb_true_iff in Hf. destruct Hf as [Hok Hflat].
+  exact (codegen_correct_partial2_lemma p (funs_ok2_flat p Hok Hflat) Hok).
+Qed.
+
+(* with the slot numbering and the literal folding of the pipeline: p carries the slots the resolver assigns *)
+Theorem codegen_correct_partial2_folded :
+  forall p : program,
+    in_fragment2 p = true -> number_prog (fold_prog p) = p ->
+    forall n m : nat,
+      ob_verdict (observe_ref (run_module p n)) <> OutOfFuel ->
+      ob_verdict (observe_vm (run_compiled p m)) <> OutOfFuel ->
+      observe_vm (run_compiled p m) = observe_ref (run_module p n).
+Proof.
+  intros p Hf. apply andb_true_iff in Hf. destruct Hf as [Hok Hflat].
+  exact (codegen_correct_partial2_folded_lemma p Hok (funs_ok2_flat p Hok Hflat)).
+Qed.
+
+Theorem codegen_never_stuck_partial2 :
+  forall p : program,
+    in_fragment2 p = true ->
+    forall n m r k,
+      ob_verdict (observe_ref (run_module p n)) <> OutOfFuel ->
+      run_vm p m = Some (r, k) ->
+      forall why, r <> VStuck why.
+Proof.
+  intros p Hf. apply andb_true_iff in Hf. destruct Hf as [Hok Hflat].
+  exact (never_stuck2_lemma p (funs_ok2_flat p Hok Hflat) Hok).
+Qed.
+
+(* the new fragment contains the old one *)
+Theorem fragment2_contains_fragment :
+  forall p : program, in_fragment p = true -> in_fragment2 p = true.
+Proof. exact in_fragment_sub. Qed.
+
+(* ---- the hypotheses are satisfiable:
+
+       def f(n):
+           k = 2
+           r = [[x * y + k for y in range(x) if y != 1] for x in range(n) if x]
+           d = {a: [k, b] for a, b in [(1, r), (2, k)]}
+           return (r, d)
+       z = [a + 1 for a in [1, 2]]
+       trace(f(4), z)
+
+   a nested list comprehension with filters inside a function, using the outer local k and the
+   parameter n, a dict comprehension with a sequence target, a comprehension at module level;
+   the frame of f is laid out as [n; k; .x; .y; r; .a; .b; d] (slots 2, 3, 5, 6 are block-local). *)
+Definition example2_prog : program :=
+  {| p_opts := {| o_set := false; o_while := false; o_recursion := false; o_toplevel := true |};
+     p_body := [
+       SDef 0 "f" [PPlain "n"] [
+          SAssign (TName "k" Q) (EInt 2) Q;
+          SAssign (TName "r" Q)
+            (EComp false
+               (EComp false (EBinary Add Q (EBinary Mul Q (EName "x" Q) (EName "y" Q)) (EName "k" Q)) (EInt 0) Q
+                      [CFor (TName "y" Q) (ECall (EName "range" Q) [APos (EName "x" Q)] Q) Q;
+                       CIf (EBinary Ne Q (EName "y" Q) (EInt 1))] [3])
+               (EInt 0) Q
+               [CFor (TName "x" Q) (ECall (EName "range" Q) [APos (EName "n" Q)] Q) Q; CIf (EName "x" Q)] [2]) Q;
+          SAssign (TName "d" Q)
+            (EComp true (EName "a" Q) (EList [EName "k" Q; EName "b" Q]) Q
+               [CFor (TSeq [TName "a" Q; TName "b" Q])
+                     (EList [ETuple [EInt 1; EName "r" Q]; ETuple [EInt 2; EName "k" Q]]) Q] [5; 6]) Q;
+          SReturn (Some (ETuple [EName "r" Q; EName "d" Q]))
+       ] Q;
+       SAssign (TName "z" Q) (EComp false (EBinary Add Q (EName "a" Q) (EInt 1)) (EInt 0) Q
+                                    [CFor (TName "a" Q) (EList [EInt 1; EInt 2]) Q] [0]) Q;
+       SExpr (ECall (EName "trace" Q) [APos (ECall (EName "f" Q) [APos (EInt 4)] Q); APos (EName "z" Q)] Q)
+     ] |}.
+
+Example example2_in_fragment2 : in_fragment2 example2_prog = true.
+Proof. reflexivity. Qed.
+
+(* it is outside the first fragment *)
+Example example2_not_in_fragment : in_fragment example2_prog = false.
+Proof. reflexivity. Qed.
+
+(* its slot annotations are those the resolver model assigns *)
+Example example2_fold : number_prog (fold_prog example2_prog) = example2_prog.
+Proof. reflexivity. Qed.
+
+Example example2_layout :
+  option_map (fun d => layout (fst d)) (find_def example2_prog 0) = Some ["n"; "k"; ".x"; ".y"; "r"; ".a"; ".b"; "d"].
+Proof. reflexivity. Qed.
+
+Example example2_runs :
+  ob_trace (observe_ref (run_module example2_prog 200)) =
+    [(["([[2], [2], [2, 8]], {1: [2, [[2], [2], [2, 8]]], 2: [2, 2]})"; "[2, 3]"], [])]
+  /\ observe_vm (run_vm example2_prog 2000) = observe_ref (run_module example2_prog 200).
+Proof. split; vm_compute; reflexivity. Qed.
+
+Example example2_instance :
+  observe_vm (run_compiled example2_prog 2000) = observe_ref (run_module example2_prog 200).
+Proof.
+  apply codegen_correct_partial2_folded; [ exact example2_in_fragment2 | exact example2_fold | | ];
+    vm_compute; discriminate.
+Qed.
+
+(* the stale-variable witness is rejected by the guard: `for y in ([z] ...)` names z before `for z` *)
+Example stale_witness_outside : in_fragment2 (number_prog (fold_prog stale_witness)) = false.
+Proof. reflexivity. Qed.
